@@ -313,6 +313,9 @@ class EditDistance(SequenceEdit):
             Range: The bounds on the cost of this edit.
 
         """
+        if not self.from_seq and not self.to_seq:
+            # Nothing is left to align once the shared prefix and suffix are removed: the sequences are equal
+            return Range(0, 0)
         base_bounds: Range = super().bounds()
         if self.is_complete():
             if self.__edits is None:
